@@ -255,6 +255,8 @@ func executeBinaryExpr(s *ast.AstProcessBinaryExpression, state ProcessState) Pr
 			panic("SHOULDN'T GET HERE (string) :(")
 		}
 	} else if lhs_state.currentValue.getType() == bytecode.PTBOOLEAN {
+		// the right operand is coerced to the type of the left one
+		rhs_bool := ProcessValueBoolean{rhs_state.currentValue.getBoolean()}
 		if s.Op == ast.AND {
 			final := lhs_state.currentValue.getBoolean() && rhs_state.currentValue.getBoolean()
 			final_state.currentValue = ProcessValueBoolean{final}
@@ -268,16 +270,16 @@ func executeBinaryExpr(s *ast.AstProcessBinaryExpression, state ProcessState) Pr
 			final := lhs_state.currentValue.getBoolean() != rhs_state.currentValue.getBoolean()
 			final_state.currentValue = ProcessValueBoolean{final}
 		} else if s.Op == ast.LESS {
-			final := lhs_state.currentValue.getNumber() < rhs_state.currentValue.getNumber()
+			final := lhs_state.currentValue.getNumber() < rhs_bool.getNumber()
 			final_state.currentValue = ProcessValueBoolean{final}
 		} else if s.Op == ast.GREATER {
-			final := lhs_state.currentValue.getNumber() > rhs_state.currentValue.getNumber()
+			final := lhs_state.currentValue.getNumber() > rhs_bool.getNumber()
 			final_state.currentValue = ProcessValueBoolean{final}
 		} else if s.Op == ast.LESSEQ {
-			final := lhs_state.currentValue.getNumber() <= rhs_state.currentValue.getNumber()
+			final := lhs_state.currentValue.getNumber() <= rhs_bool.getNumber()
 			final_state.currentValue = ProcessValueBoolean{final}
 		} else if s.Op == ast.GREATEREQ {
-			final := lhs_state.currentValue.getNumber() >= rhs_state.currentValue.getNumber()
+			final := lhs_state.currentValue.getNumber() >= rhs_bool.getNumber()
 			final_state.currentValue = ProcessValueBoolean{final}
 		} else {
 			panic("SHOULDN'T GET HERE (bool) :(")
